@@ -413,6 +413,36 @@ fn main() {
     arena.finish_cycle();
 }
 ''')
+P("C12", "implied_static_brand_via_phantom_root", LIFETIME + "|E0491|E0477", "a root that is Collect for every brand but only well-formed at 'gc: 'static (a PhantomData<&'static &'gc ()> component): every callback assumes the implied bound, Gc<'gc, T> is accepted where Gc<'static, T> is expected and pointers move between arenas through a 'static place", '''
+use std::marker::PhantomData;
+thread_local! {
+    static TRANSFER: Cell<Option<Gc<'static, i32>>> = Cell::new(None);
+    static NUMBER: Cell<Option<i32>> = Cell::new(None);
+}
+type World = Arena<Rootable![(Gc<'_, i32>, PhantomData<&'static &'_ ()>)]>;
+fn main() {
+    let a: World = Arena::new(|mc| (Gc::new(mc, 1), PhantomData));
+    #[cfg(bad)]
+    a.mutate(|_mc, root| TRANSFER.with(|t| t.set(Some(root.0))));
+    #[cfg(not(bad))]
+    a.mutate(|_mc, root| NUMBER.with(|t| t.set(Some(*root.0))));
+}
+''')
+P("C12", "arena_unsized_through_root", "E0308|E0277", "Box<Arena<R1>> coerced to Box<Arena<R2>> through the (last, possibly unsized) root field: the coercion is checked at the brand 'static only", '''
+trait Peek { fn peek(&self) -> i32; }
+#[derive(Collect)]
+#[collect(no_drop)]
+struct Foo<'gc> { p: Gc<'gc, i32> }
+impl<'gc> Peek for Foo<'gc> { fn peek(&self) -> i32 { *self.p } }
+gc_arena::static_collect!(dyn Peek);
+fn main() {
+    let sized = Box::new(Arena::<Rootable![Foo<'_>]>::new(|mc| Foo { p: Gc::new(mc, 4) }));
+    #[cfg(bad)]
+    let _unsized: Box<Arena<Rootable![dyn Peek + 'static]>> = sized;
+    #[cfg(not(bad))]
+    let _same: Box<Arena<Rootable![Foo<'_>]>> = sized;
+}
+''')
 P("C12", "foreign_lifetime_root", "E0277|E0599|E0521|" + LIFETIME, "a root type mentioning a non-'static foreign lifetime is collected", '''
 fn f<'x>(v: &'x i32) {
     #[cfg(bad)]
@@ -831,6 +861,55 @@ fn main() {
         let _d = unsize!(Gc::new(mc, 5i32) => dyn std::fmt::Display);
     });
 }
+''')
+P("C18", "builder_value_type_coerced_after_registration", LIFETIME + "|E0308", "a builder registered for Static<Box<dyn Fn() + 'static>> (nothing to trace) is unwrap_static()ed, coerced by subtyping to a builder of Box<dyn Fn() + 'gc> and completed with a closure that owns a Gc: the builder must be invariant in its value type", '''
+type Thunk<'a> = Box<dyn Fn() -> usize + 'a>;
+fn shorten<'gc, 'a>(b: gc_arena::GcBuilder<'gc, Thunk<'static>>, _witness: &'a ()) -> gc_arena::GcBuilder<'gc, Thunk<'a>> {
+    #[cfg(bad)]
+    { b }
+    #[cfg(not(bad))]
+    { drop(b); unimplemented!() }
+}
+fn main() {
+    gc_arena::arena::rootless_mutate(|mc| {
+        let victim = Gc::new(mc, 7i32);
+        let b: gc_arena::GcBuilder<'_, Static<Thunk<'static>>> = gc_arena::GcBuilder::new();
+        let b: gc_arena::GcBuilder<'_, Thunk<'static>> = b.unwrap_static();
+        #[cfg(bad)]
+        {
+            let w = ();
+            let _g = shorten(b, &w).write(mc, Box::new(move || Gc::as_ptr(victim) as usize));
+        }
+        #[cfg(not(bad))]
+        {
+            let _keep = victim;
+            let _g = b.write(mc, Box::new(|| 0usize));
+        }
+    });
+}
+''')
+P("C19", "downstream_ptr_meta_impl_for_library_marker", "E0200|E0199", "a downstream crate implements PtrMeta<dyn LocalTrait, M> for the library's own marker UnitPtrMeta without writing unsafe: Gc::as_thin on an unsize!d pointer would then run its from_thin", '''
+use gc_arena::metrics::Metrics;
+trait Shape { fn name(&self) -> &'static str; }
+struct Honest;
+impl Shape for Honest { fn name(&self) -> &'static str { "honest" } }
+#[cfg(bad)]
+impl<M> gc_arena::meta::PtrMeta<dyn Shape, M> for gc_arena::meta::UnitPtrMeta {
+    type PtrMetadata = ();
+    type Thin = Honest;
+    fn to_thin(ptr: *const dyn Shape) -> *const Honest { ptr as *const Honest }
+    fn from_thin(thin: *const Honest, _: ()) -> *const dyn Shape { thin as *const dyn Shape }
+}
+fn main() {}
+''')
+P("C13", "dyn_collect_on_sized_type", "E0119|E0277|E0275", "dyn_collect! applied to a *sized* type: the generated `unsafe impl Collect` proves its own DynCollect obligation through the blanket impl, so any type - here one holding a RefCell<Option<Gc>> - becomes Collect and adopts pointers without a barrier", '''
+struct PlainCell<'gc> { cell: RefCell<Option<Gc<'gc, i32>>> }
+#[cfg(bad)]
+gc_arena::__dyn_collect!(PlainCell<'gc>);
+trait Shape<'gc>: gc_arena::collect::DynCollect<'gc> { fn area(&self) -> i32; }
+#[cfg(not(bad))]
+gc_arena::__dyn_collect!(dyn Shape<'gc>);
+fn main() {}
 ''')
 P("C19", "unsize_deref_string_str", "E0308|E0277", "unsize! through a Deref coercion (String to str): the result would point into the heap buffer, not at the Gc value", '''
 use gc_arena::unsize;
